@@ -274,6 +274,7 @@ async def _run_async_execute(
                 result = await func()
             else:
                 result = await asyncio.wait_for(func(), timeout=attempt_timeout_s)
+            attempt_state.returned = True
 
             # Success path: check if result needs classification
             needs_retry, classification = should_classify_result(policy, result)
@@ -344,6 +345,10 @@ async def _run_async_execute(
         except RetryExhaustedError:
             raise
         except Exception as exc:
+            if attempt_state.returned:
+                # The operation itself returned; errors raised by callbacks while its
+                # result was being handled propagate, exactly as they do in call().
+                raise
             attempt_state.cause = "exception"
             try:
                 state.check_abort(attempt)
